@@ -2068,6 +2068,15 @@ impl Element {
                 let pos = ps.position();
                 (String::new(), pos..pos)
             };
+            // (script text next to `src` is reported whether or not the module is recorded)
+            if !path.1.name.is_empty()
+                && content.trim_matches(super::is_template_whitespace).len() > 0
+            {
+                ps.add_warning(
+                    ParseErrorKind::ChildNodesNotAllowed,
+                    content_location.clone(),
+                );
+            }
             if let Some((module_location, module_name)) = script_module {
                 if globals
                     .scripts
@@ -2218,9 +2227,6 @@ impl Element {
                     content_location,
                 })
             } else {
-                if content.trim_matches(super::is_template_whitespace).len() > 0 {
-                    ps.add_warning(ParseErrorKind::ChildNodesNotAllowed, content_location);
-                }
                 globals.scripts.push(Script::GlobalRef {
                     tag_location: tag_location.clone(),
                     module_location,
